@@ -452,6 +452,11 @@ func GenScenario(r *rand.Rand) *Scenario {
 			sc.Kind = "call-deleg"
 			tx.To = AddrDeleg
 		}
+		if sc.Kind == "call" && r.Intn(9) == 0 {
+			// failed (and successful) creations followed by accesses to the aimed-at address
+			sc.Kind = "create-touch"
+			w.Get(AddrC1).Code = CreateTouchProgram(r, Addr(AddrC1), 1)
+		}
 		nw := r.Intn(4)
 		for i := 0; i < nw; i++ {
 			word := make([]byte, 32)
@@ -463,6 +468,12 @@ func GenScenario(r *rand.Rand) *Scenario {
 		}
 		if r.Intn(6) == 0 {
 			sc.Data = append(sc.Data, byte(r.Intn(3)), 7)
+		}
+		if r.Intn(8) == 0 {
+			// calldata-heavy: the EIP-7623 floor comes close to (or above) the execution gas
+			for k, m := 0, 64+32*r.Intn(14); k < m; k++ {
+				sc.Data = append(sc.Data, byte(1+r.Intn(255)))
+			}
 		}
 	}
 	tx.Data = Bytes(sc.Data)
